@@ -19,9 +19,11 @@ def consts_of(ctx, cls):
 
 
 def bit_of(e, flagvar="flags"):
-    """'A' for `flags & self.A` / `self.A & self._flags` ; None otherwise"""
+    """'A' for `flags & self.A` / `self.A & self._flags` / `bool(..)` / `(..) != 0` ; None otherwise"""
     if isinstance(e, ast.Call) and isinstance(e.func, ast.Name) and e.func.id == "bool" and e.args:
         e = e.args[0]
+    if isinstance(e, ast.Compare) and len(e.ops) == 1 and isinstance(e.ops[0], (ast.NotEq, ast.Gt)) and isinstance(e.comparators[0], ast.Constant) and e.comparators[0].value == 0:
+        e = e.left
     if isinstance(e, ast.BinOp) and isinstance(e.op, ast.BitAnd):
         for a, b in ((e.left, e.right), (e.right, e.left)):
             if isinstance(b, ast.Attribute) and isinstance(b.value, ast.Name) and b.value.id in ("self", "cls") and b.attr.isupper():
@@ -285,6 +287,9 @@ def run(ctx):
                 if isinstance(v, ast.UnaryOp) and isinstance(v.op, ast.Not):
                     neg = True
                     v = v.operand
+                if isinstance(v, ast.Compare) and len(v.ops) == 1 and isinstance(v.ops[0], ast.Eq) and isinstance(v.comparators[0], ast.Constant) and v.comparators[0].value == 0:
+                    neg = not neg
+                    v = v.left
                 got = bit_of(v)
             if got == want and neg == negated:
                 r.ok("%s.%s tests %s%s" % (cls.name, name, "not " if neg else "", got))
